@@ -26,11 +26,11 @@ def load_contracts():
 
 
 def _worker(arg):
-    full, tier, timeout_ms = arg
+    full, tier, timeout_ms, cfilter = arg
     from pyvc import harness
 
     try:
-        return harness.run_task(full, tier, timeout_ms)
+        return harness.run_task(full, tier, timeout_ms, cfilter)
     except BaseException as e:  # noqa
         return {"task": full, "status": "error", "detail": repr(e), "results": [], "functions": {},
                 "lib_used": [], "trusted": [], "samples": [], "seconds": 0, "prop": full.split("/")[0]}
@@ -78,6 +78,17 @@ def main(argv=None):
     tier = a.tier
     timeout_ms = int(os.environ.get("PYVC_TIMEOUT_MS", "15000" if tier == "quick" else "90000"))
     names = [n for n, i in harness.TASKS.items() if i["prop"] == a.prop and ((tier == "thorough" and i["tier"] in ("quick", "thorough")) or i["tier"] == "quick")]
+    # dependencies: obligations of OTHER properties' tasks that this property's lemmas / contracts consume (meta.depends:
+    # (task-name regex, clause regex) pairs).  They are discharged as part of this check, under their own names.
+    import re
+    from contracts import meta
+    dep_filter = {}
+    for tre, cre in meta.PROPS.get(a.prop, {}).get("depends", []):
+        for n, i in harness.TASKS.items():
+            if i["prop"] != a.prop and re.match(tre, n) and ((tier == "thorough" and i["tier"] in ("quick", "thorough")) or i["tier"] == "quick"):
+                dep_filter.setdefault(n, []).append(cre)
+    dep_filter = {n: "|".join("(?:%s)" % c for c in cs) for n, cs in dep_filter.items()}
+    names = names + sorted(dep_filter)
     if a.only:
         names = [n for n in names if a.only in n]
     if not names:
@@ -85,14 +96,15 @@ def main(argv=None):
         return 3
     names.sort()
     jobs = max(1, min(a.jobs, len(names)))
+    work = [(n, tier, timeout_ms, dep_filter.get(n)) for n in names]
     if jobs == 1:
-        outs = [_worker((n, tier, timeout_ms)) for n in names]
+        outs = [_worker(w) for w in work]
     else:
         with mp.Pool(jobs, maxtasksperchild=4) as pool:
-            outs = list(pool.imap_unordered(_worker, [(n, tier, timeout_ms) for n in names], chunksize=1))
+            outs = list(pool.imap_unordered(_worker, work, chunksize=1))
     outs.sort(key=lambda o: o["task"])
 
-    known = [k for k in load_known() if k.get("property") == a.prop]
+    known = [k for k in load_known() if k.get("property") == a.prop or any(k.get("obligation", "").startswith(n + "/") for n in dep_filter)]
     known_by_ob = {k["obligation"]: k for k in known}
     results = []
     functions = {}
@@ -172,16 +184,22 @@ def main(argv=None):
         need = exp.get(a.prop, {}).get(tier, exp.get(a.prop, {}).get("quick", 1))
     except Exception:
         need = 1
-    if not a.only and n_ob + n_known < need:
-        broken.append("only %d obligations generated, expected at least %d" % (n_ob + n_known, need))
+    # the recorded count is that of the unchanged tree; per-path obligations vary with the code's branch structure, so the
+    # guard fires only on a substantial loss (a harness that silently generates next to nothing)
+    if not a.only and n_ob + n_known < 0.75 * need:
+        broken.append("only %d obligations generated, expected about %d (at least 75%% of it)" % (n_ob + n_known, need))
 
     # replay counter-models against the real code
     viol_lines = []
+    from concurrent.futures import ThreadPoolExecutor
+    todo = [v["replay"] for v in violations if v.get("replay") and v.get("kind") != "bounded-standin"]
+    with ThreadPoolExecutor(max_workers=max(1, min(8, len(todo) or 1))) as tp:
+        replayed = dict(zip(todo, tp.map(run_replay, todo)))
     for v in violations:
         rp = v.get("replay")
         confirmed, out = (False, "")
         if rp and v.get("kind") != "bounded-standin":
-            confirmed, out = run_replay(rp)
+            confirmed, out = replayed[rp]
             try:
                 with open(os.path.join(ROOT, rp), "a") as fh:
                     fh.write("\n# ---- replay output ----\n" + "".join("# " + l + "\n" for l in out.splitlines()[-40:]))
@@ -216,10 +234,10 @@ def main(argv=None):
     if not a.no_evidence and not a.only:
         write_evidence(a.prop, tier, seed, results, functions, lib_used, trusted, samples, n_ob, n_ok, known_lines,
                        violations, undecided, broken, standin_reports, wall, outs)
+    if violations:
+        return 1  # a counter-model is positive evidence; checker errors (printed above) do not retract it
     if broken:
         return 3
-    if violations:
-        return 1
     if undecided:
         return 2
     return 0
@@ -258,6 +276,7 @@ def write_evidence(prop, tier, seed, results, functions, lib_used, trusted, samp
             "bounded_standins": standins_rep,
             "not_decided": info.get("not_decided", []),
             "tasks": [{"task": o["task"], "status": o["status"], "seconds": o.get("seconds")} for o in outs],
+            "dependencies": [{"tasks": tre, "clauses": cre} for tre, cre in info.get("depends", [])],
         },
         "assumptions": info.get("assumptions", []),
         "wall_s": wall,
